@@ -6,7 +6,7 @@ ap = argparse.ArgumentParser()
 ap.add_argument('--tier', default='quick'); ap.add_argument('--seeds', default='1'); ap.add_argument('--props', default='')
 ap.add_argument('--keep', action='store_true')
 a = ap.parse_args()
-m = json.load(open('/verif/MANIFEST.json'))
+m = json.load(open(os.path.join(os.path.dirname(os.path.dirname(os.path.abspath(__file__))), 'MANIFEST.json')))
 props = [c['property_id'] for c in m['checks']]
 if a.props:
     props = [p for p in props if p in a.props.split(',')]
@@ -14,7 +14,7 @@ bad = 0
 for seed in a.seeds.split(','):
     for p in props:
         t = time.time()
-        r = subprocess.run(['/venv/bin/python', '-m', 'vp.runner', p, '--tier', a.tier], cwd='/verif',
+        r = subprocess.run(['/venv/bin/python', '-m', 'vp.runner', p, '--tier', a.tier], cwd=os.path.dirname(os.path.dirname(os.path.abspath(__file__))),
                            env=dict(os.environ, VERIF_SEED=seed), capture_output=True, text=True)
         last = (r.stdout.strip().splitlines() or ['?'])[-1]
         flag = '' if r.returncode == 0 else '   <<<<<<<< rc=%d' % r.returncode
